@@ -7,6 +7,7 @@ import (
 	eio "github.com/karagenc/socket.io-go/engine.io"
 	"github.com/karagenc/socket.io-go/engine.io/parser"
 	"github.com/karagenc/socket.io-go/internal/sync"
+	"github.com/karagenc/socket.io-go/internal/vhook"
 )
 
 // Manager methods that are directly related to
@@ -36,15 +37,18 @@ func (m *Manager) connect(recursed bool) (err error) {
 
 		m.skipReconnectMu.Lock()
 		m.skipReconnect = false
+		vhook.Event("mgr.skip", "m", m, "v", false)
 		m.skipReconnectMu.Unlock()
 	}
 
 	m.stateMu.Lock()
 	if m.state == clientConnStateConnected {
+		vhook.Event("mgr.state", "m", m, "site", "connect.already", "to", int(m.state), "rec", recursed)
 		m.stateMu.Unlock()
 		return nil
 	}
 	m.state = clientConnStateConnecting
+	vhook.Event("mgr.state", "m", m, "site", "connect.begin", "to", int(m.state), "rec", recursed)
 	m.stateMu.Unlock()
 
 	m.eioMu.Lock()
@@ -89,13 +93,16 @@ func (m *Manager) connect(recursed bool) (err error) {
 		m.resetParser()
 		m.stateMu.Lock()
 		m.state = clientConnStateDisconnected
+		vhook.Event("mgr.state", "m", m, "site", "connect.fail", "to", int(m.state), "rec", recursed)
 		m.stateMu.Unlock()
 		m.errorHandlers.forEach(func(handler *ManagerErrorFunc) { (*handler)(err) }, true)
 		return err
 	}
 
+	vhook.Yield("mgr.connect.dialed", m)
 	m.stateMu.Lock()
 	m.state = clientConnStateConnected
+	vhook.Event("mgr.state", "m", m, "site", "connect.ok", "to", int(m.state), "rec", recursed)
 	m.stateMu.Unlock()
 	m.eio = _eio
 	m.resetParser()
@@ -144,10 +151,12 @@ func (m *Manager) reconnect(recursed bool) {
 	// If the state is 'connected', there is nothing for this method to do.
 	m.stateMu.Lock()
 	if m.state != clientConnStateDisconnected {
+		vhook.Event("mgr.state", "m", m, "site", "reconnect.busy", "to", int(m.state), "rec", recursed)
 		m.stateMu.Unlock()
 		return
 	}
 	m.state = clientConnStateReconnecting
+	vhook.Event("mgr.state", "m", m, "site", "reconnect.begin", "to", int(m.state), "rec", recursed)
 	m.stateMu.Unlock()
 
 	attempts := m.backoff.attempts()
@@ -160,6 +169,7 @@ func (m *Manager) reconnect(recursed bool) {
 		m.backoff.reset()
 		m.stateMu.Lock()
 		m.state = clientConnStateDisconnected
+		vhook.Event("mgr.state", "m", m, "site", "reconnect.max", "to", int(m.state), "attempts", int(attempts), "limit", int(m.reconnectionAttempts))
 		m.stateMu.Unlock()
 		m.reconnectFailedHandlers.forEach(func(handler *ManagerReconnectFailedFunc) { (*handler)() }, true)
 		return
@@ -167,7 +177,9 @@ func (m *Manager) reconnect(recursed bool) {
 
 	delay := m.backoff.duration()
 	m.debug.Log("Delay before reconnect attempt", delay)
+	vhook.Event("mgr.sleep", "m", m, "d", int64(delay), "limit", int(m.reconnectionAttempts), "t", time.Now())
 	time.Sleep(delay)
+	vhook.Event("mgr.wake", "m", m, "t", time.Now())
 
 	m.skipReconnectMu.RLock()
 	if m.skipReconnect {
@@ -194,6 +206,7 @@ func (m *Manager) reconnect(recursed bool) {
 		m.debug.Log("Reconnect failed", err)
 		m.stateMu.Lock()
 		m.state = clientConnStateDisconnected
+		vhook.Event("mgr.state", "m", m, "site", "reconnect.err", "to", int(m.state))
 		m.stateMu.Unlock()
 		m.reconnectErrorHandlers.forEach(func(handler *ManagerReconnectErrorFunc) { (*handler)(err) }, true)
 		m.reconnect(true)
